@@ -30,7 +30,7 @@ COMPONENTS = {
     "real": ["eolib.data.EoWriter (sanitisation on)", "eolib.data.EoReader (chunked mode)", "codecs"],
     "stub_or_harness": ["sender/receiver scripts (version-skewed read plans)", "expected-value computation"],
 }
-PROBES = ["raw_break_byte_in_unsanitised_header", "generated_receiver_of_generated_sender", "empty_case_next_to_default", "break_inside_switch_case", "second_receiver_from_slice_zero", "chunked_section_of_structs_only", "unchunked_overread_inside_chunk", "mode_reassigned_mid_stream", "generated_serializer_session", "generated_deserializer_session", "unsanitised_y_in_header", "overread_spanning_integer", "empty_chunk", "string_only_y_diaeresis", "last_chunk_overread",
+PROBES = ["mode_switched_off_redundantly_before_on", "raw_break_byte_in_unsanitised_header", "generated_receiver_of_generated_sender", "empty_case_next_to_default", "break_inside_switch_case", "second_receiver_from_slice_zero", "chunked_section_of_structs_only", "unchunked_overread_inside_chunk", "mode_reassigned_mid_stream", "generated_serializer_session", "generated_deserializer_session", "unsanitised_y_in_header", "overread_spanning_integer", "empty_chunk", "string_only_y_diaeresis", "last_chunk_overread",
           "underread_then_surplus", "first_byte_y_diaeresis", "last_byte_y_diaeresis", "one_char_y_diaeresis"]
 FAULT_KINDS = ["under_read", "over_read"]
 
@@ -510,6 +510,9 @@ def execute(plan, env):
         if isinstance(f[1], str) and "ÿ" in f[1]:
             res.count("probe.unsanitised_y_in_header")
     header_len = len(w)
+    if len(chunks) % 2:
+        w.string_sanitization_mode = False      # redundantly off (it is off already), as after any serializer that restored it
+        res.count("probe.mode_switched_off_redundantly_before_on")
     w.string_sanitization_mode = True
     any_y = False
     for ci, ch in enumerate(chunks):
